@@ -178,6 +178,28 @@ func GenProgram(t *rapid.T, cfg GenCfg) Program {
 			} else {
 				p.Ops = append(p.Ops, Op{K: "revert", Sel: rapid.IntRange(0, 15).Draw(t, "sel"), On: rapid.IntRange(0, 2).Draw(t, "orphan") == 0})
 			}
+		case "lunmapseq":
+			// the tail of a rebuild or clone: a user snapshot, the replica (re)opened without
+			// preload, writes over what the snapshot owns, then UpdateLUNMap - whose merge
+			// punches older copies above the latest user snapshot only
+			u := fmt.Sprintf("s%d", len(names))
+			names = append(names, u)
+			nsnaps++
+			w := genWrite(t, size)
+			p.Ops = append(p.Ops, Op{K: "punch", On: true}, w, Op{K: "snap", Name: u, User: true})
+			if rapid.Bool().Draw(t, "autoabove") {
+				a := fmt.Sprintf("s%d", len(names))
+				names = append(names, a)
+				nsnaps++
+				p.Ops = append(p.Ops, genWrite(t, size), Op{K: "snap", Name: a})
+			}
+			p.Ops = append(p.Ops, Op{K: rapid.SampledFrom([]string{"reopen", "reload"}).Draw(t, "how"), On: false})
+			ow := w
+			ow.Off, ow.Len, ow.Seed = w.Off/8*8, (w.Len+15)/8*8, rapid.IntRange(1, 250).Draw(t, "owseed")
+			if ow.Off+ow.Len > int64(size)*8 {
+				ow.Len = int64(size)*8 - ow.Off
+			}
+			p.Ops = append(p.Ops, ow, genWrite(t, size), Op{K: "lunmap"}, genWrite(t, size))
 		case "reuseseq":
 			// a snapshot is removed, its name is used again, more snapshots follow, and the
 			// new snapshot of that name is removed as well - within one life of the process,
